@@ -4,6 +4,9 @@
  *   A                                     print ABI facts of the header as this compiler sees them
  *   O <path>                              clockbound_open, print the outcome, close
  *   N <path> <rs> <rns> <ms> <mns> <errno> <failclk>   open, now() under the virtual clock, print, close
+ *   P <slot> <path>                       clockbound_open into a slot that stays open
+ *   Q <slot> <rs> <rns> <ms> <mns>        clockbound_now on an open slot
+ *   R <slot>                              clockbound_close the slot
  */
 #define _GNU_SOURCE
 #include <errno.h>
@@ -39,9 +42,44 @@ static void print_err(const char *what, const clockbound_err *e) {
         printf("%s err %d %d %s\n", what, (int)e->kind, e->sys_errno, e->detail ? e->detail : "-");
 }
 
+static clockbound_ctx *slots[16];
+
 int main(void) {
         char line[8192];
         while (fgets(line, sizeof line, stdin)) {
+                if (line[0] == 'P') {
+                        int slot; char path[4096];
+                        if (sscanf(line + 2, "%d %4095s", &slot, path) != 2 || slot < 0 || slot >= 16) { printf("bad\n"); fflush(stdout); continue; }
+                        clockbound_err err;
+                        memset(&err, 0x5a, sizeof err);
+                        v_on = 0;
+                        slots[slot] = clockbound_open(path, &err);
+                        if (!slots[slot]) print_err("open", &err); else printf("open ok\n");
+                        fflush(stdout);
+                        continue;
+                }
+                if (line[0] == 'Q') {
+                        int slot; long long rs, rns, ms, mns;
+                        if (sscanf(line + 2, "%d %lld %lld %lld %lld", &slot, &rs, &rns, &ms, &mns) != 5 || slot < 0 || slot >= 16 || !slots[slot]) { printf("bad\n"); fflush(stdout); continue; }
+                        clockbound_now_result res;
+                        memset(&res, 0x5a, sizeof res);
+                        v_real.tv_sec = rs; v_real.tv_nsec = rns; v_mono.tv_sec = ms; v_mono.tv_nsec = mns;
+                        v_fail_errno = 0; v_fail_clk = -1; reads_real = reads_mono = 0; first_read = -1;
+                        v_on = 1;
+                        const clockbound_err *e = clockbound_now(slots[slot], &res);
+                        v_on = 0;
+                        if (e) print_err("now", e);
+                        else printf("now ok %lld %lld %lld %lld %d\n", (long long)res.earliest.tv_sec, (long long)res.earliest.tv_nsec, (long long)res.latest.tv_sec, (long long)res.latest.tv_nsec, (int)res.clock_status);
+                        fflush(stdout);
+                        continue;
+                }
+                if (line[0] == 'R') {
+                        int slot;
+                        if (sscanf(line + 2, "%d", &slot) == 1 && slot >= 0 && slot < 16 && slots[slot]) { clockbound_close(slots[slot]); slots[slot] = NULL; }
+                        printf("closed\n");
+                        fflush(stdout);
+                        continue;
+                }
                 if (line[0] == 'A') {
                         printf("abi err_size=%zu err_kind_off=%zu err_errno_off=%zu err_detail_off=%zu res_size=%zu res_earliest_off=%zu res_latest_off=%zu res_status_off=%zu "
                                "kind_none=%d kind_syscall=%d kind_notinit=%d kind_malformed=%d kind_causality=%d sta_unknown=%d sta_sync=%d sta_free=%d timespec_size=%zu default_path=%s\n",
